@@ -72,16 +72,163 @@ def split_top(s_):
     return out
 
 
+_TY_TOKEN = re.compile(r"'[A-Za-z_][A-Za-z0-9_]*|[A-Za-z_][A-Za-z0-9_]*(?:::[A-Za-z_][A-Za-z0-9_]*)*|\S")
+
+
+def unify_types(generic, concrete):
+    """bind the type parameters (bare identifiers) of the type text `generic` so that it reads `concrete`:
+    unify_types('Result<T, E2>', 'Result<Vec<i64>, E2>') -> {'T': 'Vec<i64>'}; None if the texts do not line up"""
+    a = [(m.group(0), m.start(), m.end()) for m in _TY_TOKEN.finditer(generic)]
+    b = [(m.group(0), m.start(), m.end()) for m in _TY_TOKEN.finditer(concrete)]
+    out = {}
+    i = j = 0
+    while i < len(a) and j < len(b):
+        ta, tb = a[i][0], b[j][0]
+        if ta == tb or (ta.startswith("'") and tb.startswith("'")):
+            i += 1
+            j += 1
+            continue
+        if not re.match(r"^[A-Za-z_][A-Za-z0-9_]*$", ta):
+            return None
+        # a type parameter: it stands for one whole type on the other side
+        depth = 0
+        k = j
+        while k < len(b):
+            t = b[k][0]
+            if t in "<([":
+                depth += 1
+            elif t in ">)]":
+                if depth == 0:
+                    break
+                depth -= 1
+            elif t in ",;" and depth == 0:
+                break
+            k += 1
+        if k == j:
+            return None
+        text = concrete[b[j][1]:b[k - 1][2]]
+        if out.setdefault(ta, text) != text:
+            return None
+        i += 1
+        j = k
+    return out if i == len(a) and j == len(b) else None
+
+
+def _const_hook(F):
+    """integer value of a `const NAME: usize = <int expr>` item used in an expression"""
+    def hook(e):
+        if e.get("k") == "path" and e["path"]["res"].get("k") == "def":
+            g = F.fn(short(e["path"]["res"].get("path", "")), required=False)
+            if g is not None and "Const" in str(g.kind) and g.hir and g.hir.get("body") is not None:
+                return hu.eval_int(F, g.hir["body"], {}, hook)
+        return None
+    return hook
+
+
+def _unwrap_try(e):
+    """`x?` -> x"""
+    e = hir_strip(e)
+    while e is not None and e.get("k") == "match" and str(e.get("source", "")).startswith("TryDesugar"):
+        sc_ = hir_strip(e["scrut"])
+        if sc_.get("k") == "call" and sc_["args"] and any(n.endswith("Try::branch") for n in hir_callee(sc_)):
+            e = hir_strip(sc_["args"][0])
+        else:
+            break
+    return e
+
+
+def conversion_rows(F, g, env=None, tyenv=None, depth=0):
+    """Read the statements of g's body as the rows of a wrapper: where a value is taken from the stack and how it is
+    converted. A row is written in place (`let v = stack.peek_last(c); let v = T::try_from(v).map_err(|_|
+    conversion_error(i, type_name::<T>(), ..))?`) or by a call of a crate function that does this for the position it is
+    given (`let v = argument::<T>(vm, i, ARITY)?`): the callee's body is read the same way, with its integer parameters
+    bound to the values and its type parameters to the types of this call. `env`: local id -> integer value;
+    `tyenv`: type parameter -> type.
+    -> (sources: binding id -> ('pop', n) | ('peek', c), conversions: [dict(source, dst (binding id | 'ret'), ty, lit, tn, ln)],
+        number of pops)"""
+    env = dict(env or {})
+    tyenv = tyenv or {}
+    hook = _const_hook(F)
+    body = hir_strip(g.hir["body"])
+    if body.get("k") != "block":
+        body = {"k": "block", "block": {"stmts": [], "expr": body}}
+    items = [(st["pat"]["id"], st["init"], st["ln"]) for st in body["block"]["stmts"]
+             if st["k"] == "let" and st["pat"].get("k") == "bind" and st.get("init") is not None]
+    if body["block"].get("expr") is not None:
+        items.append(("ret", body["block"]["expr"], body["block"]["expr"].get("ln")))
+    sources = {}
+    convs = []
+    npop = 0
+
+    def subst(t):
+        return tyenv.get(t, t) if t is not None else None
+    for dst, init0, ln in items:
+        init = hir_strip(init0)
+        if init.get("k") == "mcall" and any(n.endswith("stack_pop") or n.endswith("ValueStack::pop") for n in hir_callee(init)):
+            npop += 1
+            sources[dst] = ("pop", npop)
+            continue
+        if init.get("k") == "mcall" and any(n.endswith("ValueStack::peek_last") for n in hir_callee(init)):
+            sources[dst] = ("peek", hu.eval_int(F, init["args"][0], env, hook))
+            continue
+        if "usize" in str(init.get("ty")) or str(init.get("ty")) in ("i32", "i64", "u32", "u64", "isize"):
+            v = hu.eval_int(F, init, env, hook)
+            if v is not None and dst != "ret":
+                env[dst] = v
+                continue
+        # conversion written here
+        tf = None
+        lit = None
+        tn = None
+        for y in hir_walk(init):
+            if y.get("k") == "call" and any(n.endswith("TryFrom::try_from") for n in hir_callee(y)):
+                tf = y
+            if y.get("k") == "call" and "traits::conversion_error" in hir_callee(y):
+                lit = hu.eval_int(F, y["args"][0], env, hook)
+                for z in hir_walk(y):
+                    if z.get("k") == "call" and any(n.endswith("any::type_name") for n in hir_callee(z)):
+                        tn = (hir_strip(z["f"])["path"].get("args") or [None])[0]
+        if tf is not None:
+            ty = ((tf.get("f") or {}).get("path", {}).get("callee", {}) or {}).get("args") or (hir_strip(tf["f"])["path"].get("args") or [])
+            convs.append({"source": sources.get(hir_local_id(tf["args"][0])), "dst": dst, "ty": subst(ty[0] if ty else None), "lit": lit,
+                          "tn": subst(tn), "ln": ln})
+            continue
+        # conversion done by a function of the crate that is told the position
+        call = _unwrap_try(init)
+        if call is None or call.get("k") != "call" or depth >= 2:
+            continue
+        h = next((h_ for h_ in (F.fn(n, required=False) for n in hir_callee(call)) if h_ is not None and h_.hir and not h_.is_closure
+                  and h_ is not g and "Fn" in str(h_.kind)), None)
+        if h is None or len(h.hir.get("params", [])) != len(call["args"]):
+            continue
+        henv = {}
+        for p_, a in zip(h.hir["params"], call["args"]):
+            if p_.get("k") == "bind":
+                v = hu.eval_int(F, a, env, hook)
+                if v is not None:
+                    henv[p_["id"]] = v
+        htys = unify_types(((h.raw.get("sig") or {}).get("output") or ""), str(call.get("ty") or "")) or {}
+        hs, hc, hp = conversion_rows(F, h, henv, {k_: subst(v_) for k_, v_ in htys.items()}, depth + 1)
+        rets = [c for c in hc if c["dst"] == "ret"]
+        if len(rets) != 1 or len(hc) != 1:
+            continue
+        c = dict(rets[0], dst=dst, ln=ln)
+        if c["source"] is not None and c["source"][0] == "pop":
+            if hp != 1:
+                continue
+            npop += 1
+            c["source"] = ("pop", npop)
+        sources[("via", dst)] = c["source"]
+        convs.append(c)
+    return sources, convs, npop
+
+
 def rule_o(F):
     res = []
     for f in wrappers(F):
         ptypes = fn_param_types(f)
         k = len(ptypes)
         body = hir_strip(f.hir["body"])
-        stmts = body["block"]["stmts"] if body.get("k") == "block" else []
-        sources = {}     # binding id -> ('pop', j) | ('peek', c)
-        convs = []       # dict(src, dst, ty, lit, tn)
-        npop = 0
         final = None
         removed = None
         for x in hir_walk(body):
@@ -90,34 +237,8 @@ def rule_o(F):
             if x.get("k") == "mcall" and x["name"] == "pop_n" and any(n.endswith("ValueStack::pop_n") for n in hir_callee(x)):
                 ga = (x.get("callee") or {}).get("args") or []
                 removed = int(ga[0]) if ga and str(ga[0]).isdigit() else None
-        for st in stmts:
-            if st["k"] != "let" or st["pat"].get("k") != "bind" or st.get("init") is None:
-                continue
-            init = hir_strip(st["init"])
-            if init.get("k") == "mcall" and any(n.endswith("stack_pop") or n.endswith("ValueStack::pop") for n in hir_callee(init)):
-                npop += 1
-                sources[st["pat"]["id"]] = ("pop", npop)
-                continue
-            if init.get("k") == "mcall" and any(n.endswith("ValueStack::peek_last") for n in hir_callee(init)):
-                c = hu.int_lit(init["args"][0]) if hu.is_int_lit(init["args"][0]) else None
-                sources[st["pat"]["id"]] = ("peek", c)
-                continue
-            # conversion
-            tf = None
-            lit = None
-            tn = None
-            for y in hir_walk(init):
-                if y.get("k") == "call" and any(n.endswith("TryFrom::try_from") for n in hir_callee(y)):
-                    tf = y
-                if y.get("k") == "call" and "traits::conversion_error" in hir_callee(y):
-                    if hu.is_int_lit(y["args"][0]):
-                        lit = hu.int_lit(y["args"][0])
-                    for z in hir_walk(y):
-                        if z.get("k") == "call" and any(n.endswith("any::type_name") for n in hir_callee(z)):
-                            tn = (hir_strip(z["f"])["path"].get("args") or [None])[0]
-            if tf is not None:
-                ty = ((tf.get("f") or {}).get("path", {}).get("callee", {}) or {}).get("args") or (hir_strip(tf["f"])["path"].get("args") or [])
-                convs.append({"src": hir_local_id(tf["args"][0]), "dst": st["pat"]["id"], "ty": ty[0] if ty else None, "lit": lit, "tn": tn, "ln": st["ln"]})
+        sources, convs, npop = conversion_rows(F, f)
+        convs = [c for c in convs if c["dst"] != "ret"]
         if final is None or len(convs) != k:
             res.append(undecided("C18.O", "C18/O/arity%d/shape" % k, f.loc(), "wrapper shape not recognised (%d conversions, final call %s)" % (len(convs), final is not None)))
             continue
@@ -129,7 +250,7 @@ def rule_o(F):
             if c is None:
                 probs.append("argument %d of the call is not a converted stack value" % i)
             else:
-                src = sources.get(c["src"])
+                src = c["source"]
                 if src is None:
                     probs.append("conversion input is not a value taken from the stack")
                 elif src[0] == "pop" and src[1] != k - i + 1:
@@ -147,7 +268,7 @@ def rule_o(F):
             else:
                 res.append(ok("C18.O", key, f.loc(c["ln"]), "stack value -> %s::try_from -> argument %d, error names input #%d" % (ptypes[i - 1], i, i)))
         # arguments are consumed exactly once
-        kinds = set(v[0] for v in sources.values())
+        kinds = set(v[0] for v in sources.values() if v is not None)
         key = "C18/O/arity%d/arguments-consumed" % k
         if kinds == {"pop"} and npop == k and removed is None:
             res.append(ok("C18.O", key, f.loc(), "%d pops for %d parameters" % (npop, k)))
